@@ -128,6 +128,14 @@ def gen(run):
             continue
         subj = "A" * (d["col"] - 1) + "B" + "A" * (d["len"] - d["col"])
         cases.append(("instr", (d["start"], subj, d["pat"], 99, 80)))
+    # patterns longer than 32 characters (a 32-byte local or parameter inside the helper would cut them)
+    for d in core.cube(run, [("plen", [31, 32, 33, 34, 40]), ("at", [1, 2, 5]), ("start", [1, 2, 6]), ("tail", [0, 3])]):
+        pat = ("ABC" * 14)[: d["plen"]]
+        subj = "C" * (d["at"] - 1) + pat + "B" * d["tail"]
+        if len(subj) > 80:
+            continue
+        cases.append(("instr", (d["start"], subj, pat, 99, 80)))
+        cases.append(("instr", (d["start"], subj, pat[:-1] + "Z", 99, 80)))
     for d in core.cube(run, [("count", range(0, 256)), ("s", ["A", "AB", "BA", ""]), ("size", [255])]):
         cases.append(("string", (d["count"], d["s"], d["size"])))
     for d in core.cube(run, [("count", [0, 1, 2, 31, 32]), ("s", ["A", "XY"]), ("size", [32, 80])]):
